@@ -1,6 +1,7 @@
 package checks
 
 import (
+	"context"
 	"fmt"
 
 	"verifsim/hx"
@@ -33,6 +34,19 @@ func C02(e *simkern.Env) {
 	}
 	ops := pipew.GenOps(tp, pipew.GenCfg{MinOps: 1, MaxOps: maxOps, Bad: true, BadStream: true, FailBias: 5, InitFail: true,
 		Cancel: true, Cast: true, BadCast: true, WriteAhead: true, Levels: true, MaxTurns: 5, NonceBase: 1000, ServerVersion: sv, AfterCancel: true, ZeroRows: true, NoHook: true})
+	// a dispatch hook that hands stream calls a context of its own and cancels
+	// it after a drawn number of turns (a per-call deadline): the stream then
+	// ends early, and whatever the client still has in flight must not be read
+	// as part of the next request
+	hookCancel := map[int64]int{} // nonce -> cancel once that many turns have run
+	if tp.Bool(1, 3) {
+		for _, op := range ops {
+			if op.Kind == "stream" && op.Bad == "" && op.Script.Outcome == "ok" && tp.Bool(1, 2) {
+				hookCancel[op.Script.Nonce] = 1 + tp.Draw(3)
+			}
+		}
+	}
+	e.Knob("calls_with_a_per_call_deadline", len(hookCancel))
 	e.Knob("server_protocol_version", sv)
 	kn := pipew.DrawKnobs(tp)
 	transport := tp.Pick(0, 0, 1, 2) // pipe, pipe, unix listener, tcp listener
@@ -47,11 +61,40 @@ func C02(e *simkern.Env) {
 		sim := simkern.NewSim(tp, e.Trace)
 		defer sim.Close()
 		hx.Rec.Reset()
+		cancels := map[int64]context.CancelFunc{}
+		turnsRun := map[int64]int{}
+		fired := map[int64]bool{}
 		srv := pipew.NewServer(func(s *vgirpc.Server) {
 			if sv != "" {
 				s.SetProtocolVersion(sv)
 			}
+			if len(hookCancel) > 0 {
+				s.SetDispatchHook(c02DeadlineHook{byReq: func(reqID string) (context.CancelFunc, func(context.CancelFunc)) {
+					for _, op := range ops {
+						if op.ReqID == reqID {
+							if _, ok := hookCancel[op.Script.Nonce]; ok {
+								n := op.Script.Nonce
+								return nil, func(c context.CancelFunc) { cancels[n] = c }
+							}
+						}
+					}
+					return nil, nil
+				}})
+			}
 		})
+		if len(hookCancel) > 0 {
+			hx.TurnDone = func(nonce int64) {
+				turnsRun[nonce]++
+				if k, ok := hookCancel[nonce]; ok && turnsRun[nonce] == k {
+					if c := cancels[nonce]; c != nil {
+						sim.Fault("per-call-context-cancelled-mid-stream")
+						fired[nonce] = true
+						c()
+					}
+				}
+			}
+			defer func() { hx.TurnDone = nil }()
+		}
 		sess := &pipew.Session{Srv: srv, Ops: ops, Pipeline: pipeline}
 		var reason simkern.StopReason
 		if transport == 0 {
@@ -95,12 +138,33 @@ func C02(e *simkern.Env) {
 		if pipeline > 0 {
 			sim.Fault("request-pipelining")
 		}
+		sess.EarlyEnd = fired
 		c02Judge(e, sess, reason)
 		e.Conclude(sim, reason, false)
 		e.Res.Nontrivial = len(ops) > 1 || kn.Frag > 0
 	})
 	if left != "" && !e.Violated() {
 		e.Harness("bubble: %s", left)
+	}
+}
+
+// c02DeadlineHook gives the calls the plan names a cancellable context.
+type c02DeadlineHook struct {
+	byReq func(reqID string) (context.CancelFunc, func(context.CancelFunc))
+}
+
+func (h c02DeadlineHook) OnDispatchStart(ctx context.Context, info vgirpc.DispatchInfo) (context.Context, vgirpc.HookToken) {
+	if _, reg := h.byReq(info.RequestID); reg != nil {
+		c2, cancel := context.WithCancel(ctx)
+		reg(cancel)
+		return c2, cancel
+	}
+	return ctx, nil
+}
+
+func (h c02DeadlineHook) OnDispatchEnd(_ context.Context, tok vgirpc.HookToken, _ vgirpc.DispatchInfo, _ *vgirpc.CallStatistics, _ error) {
+	if c, ok := tok.(context.CancelFunc); ok && c != nil {
+		c()
 	}
 }
 
@@ -163,6 +227,11 @@ func c02Judge(e *simkern.Env, sess *pipew.Session, reason simkern.StopReason) {
 			continue
 		}
 		if wantErr {
+			continue
+		}
+		if sess.EarlyEnd != nil && sess.EarlyEnd[op.Script.Nonce] {
+			// its per-call context was cancelled mid-stream: how far it got is
+			// not this property's business, only that the connection stays in frame
 			continue
 		}
 		// stream: header stream present iff predicted; data turns count
@@ -228,7 +297,7 @@ func init() {
 		Real:  []string{"vgirpc.Server.ServeWithContext / serveOne / serveUnary / serveStream / ReadRequest / wire writers", "arrow-go IPC"},
 		Stub:  []string{"duplex byte stream (hx.Pipe)", "protocol client written on arrow-go IPC", "scripted handlers and stream states"},
 		Quick: 1200, Thorough: 150000,
-		FaultKinds: []string{"read-fragmentation", "write-delay", "client-write-ahead", "client-cancel", "malformed-request", "request-pipelining", "transport-unix", "transport-tcp"},
+		FaultKinds: []string{"read-fragmentation", "write-delay", "client-write-ahead", "client-cancel", "malformed-request", "request-pipelining", "transport-unix", "transport-tcp", "per-call-context-cancelled-mid-stream"},
 		Assumptions: []string{
 			"the client follows the documented discipline (writes the first input before reading; writes input EOS after an exception, EOS, cancel or when abandoning)",
 			"protocol-version-gate refusals are exercised under C10, not here",
